@@ -199,6 +199,12 @@ impl Prop for C07 {
                         ex.class("refused-offer-at-first-column");
                     }
                 }
+                // first, on this very thread, some of the values meet a writer that breaks after 0-2
+                // bytes: no encoder state may survive that
+                for (k, (c, col)) in rows.iter().flat_map(|r| r.cells.iter().zip(cols.iter())).filter(|(c, _)| !c.denotes_null()).take(6).enumerate() {
+                    let column = col.to_column();
+                    let _ = catch(|| dispatch(c, &mut FailingBinSink { left: k % 3, col: &column }));
+                }
                 let o = run_with(&conv, None, false);
                 if let Some(a) = o.offers_accepted.first() {
                     ex.fail("c07-offer-accepted", format!("a value the column cannot carry was accepted instead of refused: {}", a.chars().take(300).collect::<String>()));
